@@ -1,5 +1,5 @@
 (* C09 — every generated instance is solvable by the solver under the documented flags. *)
-From MP Require Import Gen.Files Text.Render Proofs.PipelineProofs LP.Canon Proofs.StageInv Proofs.StageAll
+From MP Require Import Gen.Files Gen.ArgsBridge Run.Main Proofs.ArgsProofs Proofs.PipelineMain Text.Render Proofs.PipelineProofs LP.Canon Proofs.StageInv Proofs.StageAll
                        Proofs.RunStructure Spec.BFSpec Proofs.BFProofs.
 Local Open Scope list_scope. Open Scope Z_scope.
 
@@ -52,3 +52,20 @@ Proof.
   exists M. split; [exact Hi|]. now apply bf_correct.
 Qed.
 Print Assumptions C09_bf_mode.
+
+(* the pipeline from the two command lines: documented generator arguments (Gen/Args.v), any draws honouring the RNG
+   contract; each written file given to Solver(argv) with -na as the type requires, -twopl exactly when generated
+   two-sided, and any acceptable criteria selection (with or without -pc / -bf; -stab only with -twopl) yields a Solver
+   working on a well-formed instance with the requested number of first-side agents — C09_lp_mode / C09_bf_mode then
+   apply to its solve *)
+Theorem C09_pipeline_constructs : forall a t1 t2 sk lts ds files c t0,
+  documented_ok a = true ->
+  (forall d, In d ds -> draws_contract (gargs_of (with_defaults a) t1 t2 sk lts) d) ->
+  generator_run a t1 t2 sk lts ds = GFiles files ->
+  c_na c = na_of (gargs_of (with_defaults a) t1 t2 sk lts) -> c_twopl c = a_twopl a ->
+  acceptable_ns (c_ns c) (c_twopl c) (c_stab c) = true ->
+  forall nt, In nt files ->
+    exists s, solver_new c (Some (snd nt)) t0 = SReady s /\ wf (s_inst s) = true /\
+              nS (s_inst s) = zv (a_n1 a) /\ s_bf s = c_bf c /\ o_pc (s_opts s) = c_pc c /\ o_stab (s_opts s) = c_stab c.
+Proof. exact pipeline_constructs. Qed.
+Print Assumptions C09_pipeline_constructs.
